@@ -486,3 +486,84 @@ def full_cover(cf, store, fname, bind):
             if ba is not None and bb is not None and pidx == Poly.var(a) + ba * Poly.var(b) and ba * bb == NSPEC:
                 return (f"for {b} in [0,{bb}) for {a} in [0,{ba}): [{show(idx)}] = ...", None)
     return None
+
+
+def sweep_coverage(repo, rep, rule):
+    """Every counted loop of specpart.c whose bound is the spectrum size must sweep ALL bins: upper bound exactly nspec
+    (strict), lower bound 0 - or 1 when the statement(s) just before consume element 0 (running min/max seeded from [0])."""
+    cf = core(repo)
+    n_sw = 0
+    for fname, fn in cf.funcs.items():
+        for n in cf.walk(fn):
+            if n.get("kind") != "ForStmt":
+                continue
+            cl = counted_loop(cf, n)
+            if cl is None:
+                continue
+            v, lo, hi, strict = cl
+            try:
+                hp = _bound_poly(cf, hi, fname, None)
+            except Exception:
+                hp = None
+            if hp is None or not ({"mk", "mth"} <= set(hp.vars())):
+                continue            # not a sweep over the whole spectrum
+            n_sw += 1
+            lop = poly_of(lo)
+            where = f"{SPECPART_C}:{cf.line(n)} {fname}"
+            full_hi = (hp == NSPEC and strict) or (hp == NSPEC - Poly.const(1) and not strict)
+            ok_lo = lop == Poly.const(0)
+            if lop == Poly.const(1):
+                # legal only for a running reduction seeded from element 0 immediately before the loop
+                par = n.get("_p")
+                sib = [x for x in par.get("inner", []) if isinstance(x, dict)]
+                i = sib.index(n)
+                prev = sib[max(0, i - 3):i]
+                ok_lo = any(is_assign(s) and ex(s["inner"][1])[0] == "idx" and ex(s["inner"][1])[2] == ("int", 0) for s in prev)
+            if full_hi and ok_lo:
+                rep.ok(rule, where, cf.text(n).split(")")[0][:60] + ")", "sweeps every bin 0 .. nspec-1")
+            else:
+                rep.fail(rule, SPECPART_C, cf.line(n), fname, " ".join(cf.text(n).split("{")[0].split())[:80],
+                         "a sweep over the spectrum must visit every bin 0 .. nspec-1: a bin left out of the min/max scan, the "
+                         "discretisation, a copy or the reassignment keeps a stale or unset value and changes the partitions when the "
+                         "extremum / peak sits there", anchor=f"sweep:{fname}:{show(ex(for_parts(n)[3]['inner'][0]) if for_parts(n)[3].get('inner') else ('var', v))[:40]}")
+    return n_sw
+
+
+def double_buffer(repo, rep, rule):
+    """pt_fld step 2: watershed-line bins take the label of their closest labelled neighbour AS IT WAS AT THE START OF THE SWEEP:
+    the store goes to a snapshot array, the neighbour labels are read from the other one, and full copies frame the sweep.
+    Writing into the array being read makes the result depend on the scan order (not invariant under a circular shift)."""
+    cf = core(repo)
+    fn = cf.funcs.get("pt_fld")
+    if fn is None:
+        raise AnalysisError("pt_fld vanished")
+    found = 0
+    for n in cf.walk(fn):
+        if not is_assign(n):
+            continue
+        l, r = ex(n["inner"][0]), ex(n["inner"][1])
+        # X[jl] = Y[neigh[...]]
+        if l[0] == "idx" and r[0] == "idx" and r[2][0] == "idx" and r[2][1] == ("var", "neigh") and l[1][0] == "var" and r[1][0] == "var":
+            found += 1
+            X, Y = l[1][1], r[1][1]
+            loops = enclosing_loops(cf, n)
+            outer = loops[-1][0] if loops else None
+            body = for_parts(outer)[3] if outer is not None else None
+            copies_in = copies_out = False
+            if body is not None:
+                for m in cf.walk(body):
+                    if is_assign(m):
+                        a, b = ex(m["inner"][0]), ex(m["inner"][1])
+                        if a[0] == "idx" and b[0] == "idx" and a[2] == b[2] and a[2][0] == "var":
+                            if a[1] == ("var", X) and b[1] == ("var", Y) and cf.line(m) < cf.line(n):
+                                copies_in = True
+                            if a[1] == ("var", Y) and b[1] == ("var", X) and cf.line(m) > cf.line(n):
+                                copies_out = True
+            if X != Y and copies_in and copies_out:
+                rep.ok(rule, f"{SPECPART_C}:{cf.line(n)} pt_fld", cf.text(n)[:60], f"labels read from {Y}, written to the snapshot {X}; copies before and after the sweep")
+            else:
+                rep.fail(rule, SPECPART_C, cf.line(n), "pt_fld", cf.text(n)[:70],
+                         f"the reassignment writes into the array it reads neighbour labels from (or the framing copies are missing): "
+                         "a bin relabelled earlier in the sweep is seen as labelled by later bins, so the result depends on scan order "
+                         "and changes under a circular shift of the direction axis", anchor="pt_fld:reassignment-snapshot")
+    return found
